@@ -150,7 +150,9 @@ class BufferedPipe:
                     self._cv.wait(timeout)
                     if timeout is not None:
                         timeout -= time.time() - then
-                        if timeout <= 0.0:
+                        # only a timeout if nothing arrived: a feed() may have
+                        # woken us (or slipped in) right at the deadline
+                        if timeout <= 0.0 and len(self._buffer) == 0:
                             raise PipeTimeout()
 
             # something's in the buffer and we have the lock!
